@@ -512,6 +512,59 @@ func c11Coverage(e *Env, vars []RegexVar) {
 			})
 		}
 	}
+	// transitive closure: a parameter handed to a summarised callee's validated parameter is validated too
+	for changed, round := true, 0; changed && round < 5; round++ {
+		changed = false
+		for _, f := range pk.Syntax {
+			for _, d := range f.Decls {
+				fd, ok := d.(*ast.FuncDecl)
+				if !ok || fd.Body == nil || fd.Recv != nil {
+					continue
+				}
+				self := info.ObjectOf(fd.Name)
+				ps := paramObjs(info, fd)
+				ast.Inspect(fd.Body, func(n ast.Node) bool {
+					call, ok := n.(*ast.CallExpr)
+					if !ok {
+						return true
+					}
+					callee := load.Callee(info, call)
+					if callee == nil || callee == self {
+						return true
+					}
+					for _, cs := range summ[callee] {
+						if cs.idx >= len(call.Args) {
+							continue
+						}
+						a := ast.Unparen(call.Args[cs.idx])
+						if st, ok := a.(*ast.StarExpr); ok {
+							a = st.X
+						}
+						id, ok := ast.Unparen(a).(*ast.Ident)
+						if !ok {
+							continue
+						}
+						for i, po := range ps {
+							if info.ObjectOf(id) != po {
+								continue
+							}
+							dup := false
+							for _, have := range summ[self] {
+								if have.idx == i && have.sink == cs.sink {
+									dup = true
+								}
+							}
+							if !dup {
+								summ[self] = append(summ[self], psink{i, cs.sink})
+								changed = true
+							}
+						}
+					}
+					return true
+				})
+			}
+		}
+	}
 	for _, f := range pk.Syntax {
 		for _, d := range f.Decls {
 			fd, ok := d.(*ast.FuncDecl)
@@ -850,18 +903,42 @@ func c11Todo(e *Env) {
 	}
 	var todoIf *ssa.BasicBlock
 	trueMeansTodo := true
-	for _, b := range fn.Blocks {
-		iff, ok := b.Instrs[len(b.Instrs)-1].(*ssa.If)
-		if !ok {
-			continue
+	// the per-service work may live in a helper of the package that ValidateServices calls for every service
+	cands := []*ssa.Function{fn}
+	for _, c := range callsIn(fn, true) {
+		if g := c.Common().StaticCallee(); g != nil && g.Pkg == fn.Pkg && g != fn && len(g.Blocks) > 0 {
+			cands = append(cands, g)
 		}
-		cond := iff.Cond
-		neg := false
-		if u, ok := cond.(*ssa.UnOp); ok && u.Op == token.NOT {
-			cond, neg = u.X, true
-		}
-		if c, ok := cond.(*ssa.Call); ok && c.Call.StaticCallee() != nil && c.Call.StaticCallee().Origin() != nil && c.Call.StaticCallee().Origin().Name() == "Dereference" && derivesFromField(c.Call.Args[0], "Todo", 0) {
-			todoIf, trueMeansTodo = b, !neg
+	}
+	for _, cand := range cands {
+		for _, b := range cand.Blocks {
+			iff, ok := b.Instrs[len(b.Instrs)-1].(*ssa.If)
+			if !ok {
+				continue
+			}
+			cond := iff.Cond
+			neg := false
+			if u, ok := cond.(*ssa.UnOp); ok && u.Op == token.NOT {
+				cond, neg = u.X, true
+			}
+			if c, ok := cond.(*ssa.Call); ok && c.Call.StaticCallee() != nil && c.Call.StaticCallee().Origin() != nil && c.Call.StaticCallee().Origin().Name() == "Dereference" && derivesFromField(c.Call.Args[0], "Todo", 0) {
+				// the dynamic validator calls must be in the same function as the test
+				dyn := 0
+				for _, dc := range callsIn(cand, false) {
+					if dc.Common().StaticCallee() == nil && !dc.Common().IsInvoke() {
+						if _, isB := dc.Common().Value.(*ssa.Builtin); !isB {
+							dyn++
+						}
+					}
+				}
+				if dyn > 0 && todoIf == nil {
+					todoIf, trueMeansTodo = b, !neg
+					if cand != fn {
+						// the helper is reached for every service: its call in ValidateServices is not behind a todo test
+						fn = cand
+					}
+				}
+			}
 		}
 	}
 	if todoIf == nil {
@@ -1050,7 +1127,7 @@ func c11Unmarshal(e *Env) {
 		r.Undecide("R11.9", key, "anchor not found")
 	} else {
 		asserts := map[string]bool{}
-		for _, b := range fn.Blocks {
+		for _, b := range unitBlocks(fn, 2) {
 			for _, ins := range b.Instrs {
 				if ta, ok := ins.(*ssa.TypeAssert); ok && ta.CommaOk {
 					idx := "?"
@@ -1067,11 +1144,11 @@ func c11Unmarshal(e *Env) {
 		}
 		okA := asserts["0:string"] && (asserts["1:[]any"] || asserts["1:[]interface{}"]) && asserts["2:bool"] && len(asserts) == 3
 		r.Check(okA, "R11.9", key+"#element-kinds", fmt.Sprintf("element 0 is a string, 1 a sequence, 2 a bool, each by a checked assertion (found %v)", keysOf(asserts)))
-		sites := errorSites([]*ssa.Function{fn})
+		sites := errorSites(unitFns(fn, 2))
 		r.Check(len(sites) >= 4, "R11.9", key+"#errors", fmt.Sprintf("arity and every failed assertion are errors (%d error sites)", len(sites)))
 		// arity 1..3
 		lo, hi := false, false
-		for _, b := range fn.Blocks {
+		for _, b := range unitBlocks(fn, 2) {
 			if iff, ok := b.Instrs[len(b.Instrs)-1].(*ssa.If); ok {
 				if bo, ok := iff.Cond.(*ssa.BinOp); ok {
 					if k, ok := constInt(bo.Y); ok {
@@ -1097,7 +1174,7 @@ func c11Unmarshal(e *Env) {
 	if fn := e.P.Func(inputRel, "Tag.UnmarshalYAML"); fn != nil {
 		key := inputRel + ".Tag.UnmarshalYAML"
 		asserts := map[string]bool{}
-		for _, b := range fn.Blocks {
+		for _, b := range unitBlocks(fn, 2) {
 			for _, ins := range b.Instrs {
 				if ta, ok := ins.(*ssa.TypeAssert); ok && ta.CommaOk {
 					asserts[ta.AssertedType.String()] = true
@@ -1106,7 +1183,7 @@ func c11Unmarshal(e *Env) {
 		}
 		okT := asserts["string"] && asserts["int"] && (asserts["map[string]interface{}"] || asserts["map[string]any"])
 		r.Check(okT, "R11.9", key+"#shapes", fmt.Sprintf("a tag is a string or a mapping; name is a string, priority an int (assertions %v)", keysOf(asserts)))
-		sites := errorSites([]*ssa.Function{fn})
+		sites := errorSites(unitFns(fn, 2))
 		r.Check(len(sites) >= 4, "R11.9", key+"#errors", fmt.Sprintf("missing name, wrong kinds and unknown node kinds are errors (%d error sites)", len(sites)))
 	} else {
 		r.Undecide("R11.9", inputRel+".Tag.UnmarshalYAML", "anchor not found")
